@@ -111,8 +111,19 @@ fn compare(res: &mut StageResult, stdout: &str, native: &BTreeMap<usize, u64>, p
 /// `threads` > 1 runs every shard multi-threaded under different -Zmiri-seed values (data race
 /// detector + weak memory emulation + randomised scheduling).
 pub fn miri_stage_with(ctx: &Ctx, tag: &str, shards: usize, n: usize, threads: usize) -> StageResult {
+    miri_stage_kind(ctx, tag, "small", shards, n, threads)
+}
+
+/// Miri over the "large" workload: one forced big version (5..=40) per interpreter process.
+pub fn miri_stage_large(ctx: &Ctx, tag: &str) -> StageResult {
+    let mut r = miri_stage_kind(ctx, tag, "large", 16, 16, 1);
+    r.tool = "miri_large";
+    r
+}
+
+pub fn miri_stage_kind(ctx: &Ctx, tag: &str, kind: &str, shards: usize, n: usize, threads: usize) -> StageResult {
     let t0 = Instant::now();
-    let mut res = StageResult::new("miri", "small");
+    let mut res = StageResult::new("miri", kind);
     let dir = harness_dir(ctx);
     let tdir = dir.join(format!("target-miri{}", target_suffix()));
     let seed = ctx.seed ^ 0x3141;
@@ -138,7 +149,7 @@ pub fn miri_stage_with(ctx: &Ctx, tag: &str, shards: usize, n: usize, threads: u
             return res;
         }
     }
-    let native = native_digests("small", seed, n);
+    let native = native_digests(kind, seed, n);
     let mut children = Vec::new();
     for shard in 0..shards {
         let mut c = Command::new("cargo");
@@ -146,7 +157,7 @@ pub fn miri_stage_with(ctx: &Ctx, tag: &str, shards: usize, n: usize, threads: u
             .args(["+nightly", "miri", "run", "--offline", "-q", "-p", "sanit", "--target-dir"])
             .arg(&tdir)
             .args(repo_override())
-            .args(["--", "small", &seed.to_string(), &n.to_string(), &shard.to_string(), &shards.to_string(), &threads.to_string()])
+            .args(["--", kind, &seed.to_string(), &n.to_string(), &shard.to_string(), &shards.to_string(), &threads.to_string()])
             .env("CARGO_NET_OFFLINE", "true")
             .env_remove("RUSTFLAGS")
             .stdout(Stdio::piped())
@@ -188,7 +199,11 @@ pub fn miri_stage_with(ctx: &Ctx, tag: &str, shards: usize, n: usize, threads: u
         }
     }
     res.wall_s = t0.elapsed().as_secs_f64();
-    res.detail = format!("{shards} interpreter processes x {threads} thread(s), {n} jobs (versions 1-4, all levels/modes, terminal + SVG rendering), isolation on, leak check on");
+    res.detail = if kind == "large" {
+        format!("{shards} interpreter processes, one forced big version each (40, 36, 32, 27, 24, 21, 18, 16, 14, 12, 10, 9, 8, 7, 6, 5), random level/mode/payload, automatic mask (8 candidates scored) for 3 of 4, terminal / SVG rendering for some; isolation on, leak check on")
+    } else {
+        format!("{shards} interpreter processes x {threads} thread(s), {n} jobs (versions 1-4, all levels/modes, terminal + SVG rendering), isolation on, leak check on")
+    };
     res
 }
 
